@@ -773,6 +773,13 @@ class Node:
         if new_parent is self or new_parent.is_descendant_of(self):
             raise ValueError(f"Cannot move {self} below itself or a descendant")
 
+        if new_parent is not self._parent:
+            for n in new_parent._children or ():
+                if n._data_id == self._data_id:
+                    raise UniqueConstraintError(
+                        f"Node.data already exists in parent: {new_parent}"
+                    )
+
         del self._parent._children[_index_of(self._parent._children, self)]
         if not self._parent._children:  # store None instead of `[]`
             self._parent._children = None
